@@ -35,9 +35,14 @@ class ClassInfo:
         self.qual = T.tu.qualname(rec)
         self.lean = T.ident(self.qual)
         self.fields = []      # (name, kind, ctype)
+        self.map_key_types = []   # qualified names of the key types of the map members
         for c in rec.get("inner", []):
             if c.get("kind") == "FieldDecl" and c.get("name"):
                 k = field_kind(c)
+                if k == "map":
+                    mk = re.search(r"unordered_map<\s*([^,<>]+?)\s*,", c.get("type", {}).get("desugaredQualType") or c.get("type", {}).get("qualType") or "")
+                    if mk:
+                        self.map_key_types.append(strip_cv(mk.group(1)))
                 ct = None
                 if k == "scalar":
                     try:
@@ -77,6 +82,7 @@ class ObjFn(FnTr):
         self.ext_fns = []       # untranslatable static functions returning a packet list: function parameters
         self.opaque = []        # names of argument-less const getters of the same object that are outside the subset: extra inputs
         self.locrec = {}        # decl id of a local wire-record object -> lean name (Bytes)
+        self.keyvars = {}       # decl id of a const local of the map's key type -> lean pair of its two scalar members
         self.outbuf = None      # decl id of a `void*` parameter that is only a memcpy destination: the function returns those bytes
 
     # ------------------------------------------------------------------ entry
@@ -485,7 +491,17 @@ class ObjFn(FnTr):
             n = n["inner"][0]
         if n.get("kind") == "InitListExpr" and len(n.get("inner", [])) == 2:
             return "(%s, %s)" % (self.ex(n["inner"][0], B), self.ex(n["inner"][1], B))
+        if n.get("kind") == "DeclRefExpr" and n.get("referencedDecl", {}).get("id") in self.keyvars:
+            return self.keyvars[n["referencedDecl"]["id"]]      # a const local of the key type (never assigned: a non-const one is rejected where it is declared)
         raise Untranslatable("map key")
+
+    def is_key_type(self, ty):
+        """the declared type is the `const`-qualified key struct of a map member of this class (two scalar members, aggregate)"""
+        q = (ty or {}).get("qualType", "")
+        if not q.startswith("const "):
+            return False
+        base = q[len("const "):].strip()
+        return any(base == k or k.endswith("::" + base) or base.endswith("::" + k) for k in getattr(self.OT.cls if hasattr(self.OT, "cls") else self.OT, "map_key_types", ()))
 
     def map_elem(self, n):
         """(field name, key node) if n is `this->map[key]`"""
@@ -868,6 +884,19 @@ class ObjFn(FnTr):
                     self.prov[d["id"]] = (pp[0], off)
                     self.local_ty[off] = "Nat"
                     continue
+                # a local of the map's key type built from two scalars (`const Endpoint key{deviceId, streamId};`): a pair of scalar locals
+                kx = e
+                while kx is not None and kx.get("kind") in ("MaterializeTemporaryExpr", "ImplicitCastExpr", "CXXBindTemporaryExpr", "CXXConstructExpr", "ExprWithCleanups", "CXXFunctionalCastExpr") and kx.get("inner") and len(kx["inner"]) == 1:
+                    kx = kx["inner"][0]
+                if kx is not None and kx.get("kind") == "InitListExpr" and len(kx.get("inner", [])) == 2 and self.is_key_type(d.get("type")):
+                    nm = self.vname(d["name"])
+                    a, b = self.ex(kx["inner"][0], B), self.ex(kx["inner"][1], B)
+                    B.append("let %s_k0 := %s" % (nm, a))
+                    B.append("let %s_k1 := %s" % (nm, b))
+                    self.local_ty[nm + "_k0"] = "Nat"
+                    self.local_ty[nm + "_k1"] = "Nat"
+                    self.keyvars[d["id"]] = "(%s_k0, %s_k1)" % (nm, nm)
+                    continue
                 t = self.T.ctype(d.get("type"))
                 if t[0] not in ("i", "b", "p"):
                     raise Untranslatable("local of type %s" % (t,))
@@ -939,6 +968,18 @@ class ObjFn(FnTr):
         self.nloops += 1
         name = "%s_loop%d" % (self.T.lean_name(self.node), self.nloops)
         live = list(self.local_ty.items())              # everything in scope, in declaration order
+        # the two halves of a key-typed local are loop parameters only if the loop mentions the local (a key built once in front of
+        # the loop and used only there must not change the loop's signature)
+        def mentions(n, did):
+            if isinstance(n, dict):
+                if n.get("kind") == "DeclRefExpr" and n.get("referencedDecl", {}).get("id") == did:
+                    return True
+                return any(mentions(c, did) for c in n.get("inner", []))
+            return False
+        for did, pair in self.keyvars.items():
+            if not (mentions(cond, did) or mentions(body, did)):
+                halves = set(x.strip() for x in pair.strip("()").split(","))
+                live = [(nm, ty) for nm, ty in live if nm not in halves]
         did_of = {v: kk for kk, v in self.locals.items()}
         objish = set(self.pktvars.values()) | set(self.pktlists.values())
         assigned = [nm for nm, _ in live if (nm in did_of and self.assigns(body, did_of[nm])) or nm in objish]
